@@ -147,6 +147,23 @@ impl Prop for C15 {
     }
     fn check(&self, c: &C15Case) -> Outcome {
         let mut o = Outcome::new();
+        // in half of the cases every seventh edge (from id 3) has length 0: a valid row that
+        // must stay in its place like any other
+        let with_zero = c.digits % 2 == 0 && c.net.m() > 3;
+        let zeroed;
+        let c = if with_zero {
+            let mut c2 = c.clone();
+            for (i, e) in c2.net.edges.iter_mut().enumerate() {
+                if i % 7 == 3 {
+                    e.2 = 0.0;
+                }
+            }
+            zeroed = c2;
+            &zeroed
+        } else {
+            c
+        };
+        o.label_if(with_zero, "zero-length-edges");
         let n = c.net.n();
         let m = c.net.m();
         let g = c.net.ref_graph();
